@@ -41,6 +41,29 @@ def classify_paths(F, b):
             roles[c.dest[0]] = role
             if c.args and c.args[0][0] != "k":
                 dirs |= od.chain_locals(b, c.args[0])
+        elif c.path.startswith(MOD) and c.path in F.fns and "PathBuf" in F.fns[c.path]["sig"].rsplit("->", 1)[-1] and b.path != c.path:
+            # a path-building helper of the module (`sibling_of_snapshot(dir, SUFFIX)`): the role is decided by the
+            # constants it joins, its own and the ones passed in; its first path argument is the directory
+            hm = F.mir(c.path)
+            if hm is None or not any(t_["t"][0] == "call" and t_["t"][1].get("p", "").rsplit("::", 1)[-1] == "join" for t_ in hm["blocks"]):
+                continue
+            txt = " ".join(str(x) for blk in hm["blocks"] for st in blk["s"] for x in [st[1]] if "const" in str(x)) + " " + str(hm.get("prom"))
+            for a in c.args:
+                if a[0] == "k":
+                    txt += " " + b.const_text(a[1])
+                else:
+                    txt += " " + b.operand_text(a)
+            role = "final"
+            if "TMP_SUFFIX" in txt or tmp_s in txt:
+                role = "tmp"
+            elif "COMMITTED_SUFFIX" in txt or com_s in txt:
+                role = "marker"
+            roles[c.dest[0]] = role
+            if c.args and c.args[0][0] != "k":
+                dirs |= od.chain_locals(b, c.args[0])
+    for l in list(roles):
+        if l in dirs and roles[l] == "final":
+            del roles[l]        # a built path that is itself joined onto is a directory (`snapshot_dir(data)`), not a file
     return roles, dirs
 
 
@@ -56,9 +79,12 @@ def role_of(b, roles, dirs, op):
     return None
 
 
-def fs_events(F, b):
+def fs_events(F, b, _depth=0, _param_role=None):
     """(call, kind, role) for file-system effect calls; sync_all gets the role of the path its handle was opened on."""
     roles, dirs = classify_paths(F, b)
+    if _param_role:
+        roles = dict(roles)
+        roles.update(_param_role)
     handle_role = {}
     ev = []
     for c in b.calls():
@@ -84,6 +110,24 @@ def fs_events(F, b):
                 ev.append((c, "sync", r))
         elif m == "write_all":
             ev.append((c, "write_all", None))
+        elif _depth == 0 and c.path.startswith(MOD) and c.path in F.fns and c.path != b.path and "Result<" in F.fns[c.path]["sig"].rsplit("->", 1)[-1] and c.args and c.args[0][0] != "k" and "Path" in b.local_ty(c.args[0][1][0]):
+            # an effect helper of the module (`write_and_sync(path, ..)`, `sync_directory(dir)`): the file-system
+            # steps it performs on its path parameter on every non-error path happen here, on the argument's path
+            hm = F.mir(c.path)
+            if hm is None:
+                continue
+            hb = Body(hm, F.fns[c.path])
+            hev, _, _ = fs_events(F, hb, _depth=1, _param_role={1: "P"})
+            errs = {cc.bb for cc in hb.calls() if cc.path.endswith("from_residual")} | {i for i, j, pl, rv, line, exp in hb.stmts() if pl[0] == 0 and rv[0] == "agg" and rv[1].endswith("Result::Err")}
+            rets = hb.ret_blocks()
+            outer = role_of(b, roles, dirs, c.args[0])
+            for hc, kind, r in hev:
+                if not rets or not all(hb.must_pass(0, rb, {hc.bb} | errs) for rb in rets):
+                    continue        # a conditional step inside the helper is not a step of the protocol
+                if kind == "write_all":
+                    ev.append((c, kind, None))
+                elif r == "P":
+                    ev.append((c, kind, outer))
     return ev, roles, dirs
 
 
